@@ -355,7 +355,7 @@ func c01Forgery(r *mc.Run, c *mc.Ctx, base *c01base, lv []int, nl int) {
 	attMode := c.Choose("attkey", 10)
 	bodySigner := c.Choose("bodysigner", 3)
 	signedBytes := c.Choose("signedbytes", 4)
-	rdMode := c.Choose("reportdata", 6)
+	rdMode := c.Choose("reportdata", 13)
 	qeSigner := c.Choose("qesigner", 5)
 	qeAltered := c.Choose("qealtered", 3)
 	bodySigForm := c.Choose("bodysigform", 5)
@@ -435,6 +435,27 @@ func c01Forgery(r *mc.Run, c *mc.Ctx, base *c01base, lv []int, nl int) {
 	case 5:
 		d := sha256.Sum256(append(append([]byte{}, p.AttKey...), p.Auth[:len(p.Auth)-1]...))
 		copy(p.QEReport[320:352], d[:])
+		qeResign = true
+	case 6, 7, 8, 9, 10:
+		// the right digest at another offset of the 64-byte field, zeros around it
+		k := []int{1, 8, 16, 31, 32}[rdMode-6]
+		d := sha256.Sum256(append(append([]byte{}, p.AttKey...), p.Auth...))
+		for i := 320; i < 384; i++ {
+			p.QEReport[i] = 0
+		}
+		copy(p.QEReport[320+k:], d[:])
+		qeResign = true
+	case 11: // the right digest twice
+		d := sha256.Sum256(append(append([]byte{}, p.AttKey...), p.Auth...))
+		copy(p.QEReport[320:352], d[:])
+		copy(p.QEReport[352:384], d[:])
+		qeResign = true
+	case 12: // the right digest followed by 0x20 / 0xff padding
+		d := sha256.Sum256(append(append([]byte{}, p.AttKey...), p.Auth...))
+		copy(p.QEReport[320:352], d[:])
+		for i := 352; i < 384; i++ {
+			p.QEReport[i] = 0x20
+		}
 		qeResign = true
 	}
 	signers := []*world.Key{pki.LeafKey, pki.InterKey, pki.RootKey, other, effAtt}
